@@ -278,7 +278,12 @@ def resolve_attr(text: str, path: list[str]) -> tuple[Res | None, dict]:
         if k < len(path) - 1 and path[k + 1] == "->":
             value = found
         elif k < len(path) - 1:
-            if found.type not in reader.SET_TYPES:
+            # the library's item access walks through with / let / assert / parentheses to the set they wrap
+            hops = 0
+            while found is not None and found.type in ("with_expression", "let_expression", "assert_expression", "parenthesized_expression") and hops < 8:
+                hops += 1
+                found = found.child_by_field_name("body") or found.child_by_field_name("expression")
+            if found is None or found.type not in reader.SET_TYPES:
                 return None, info
             node = found
         else:
